@@ -6,6 +6,10 @@ TRUST = ("x/tools go/ssa v0.29.0 lowering; /verif/engine VC generator and SMT pr
          "Go type+memory safety (no unsafe, no data races on verified state, 64-bit int); trusted-spec contracts on external functions listed in the evidence file; "
          "termination only where a decreases clause or a range loop is checked. ")
 claimed = {
+ "C16": ("proof", "G711/G722 Payload carry an inductive loop invariant (consumed offset = len(out)*mtu; every fragment so far is a fresh slice of exactly mtu bytes equal to its input window) and postconditions: fragments concatenate to the input, all but the last have exactly MTU bytes, the last holds the 1..MTU remaining bytes, nil input or MTU 0 give none; termination by a decreases clause. Opus: one fresh fragment equal to the input; OpusPacket.Unmarshal passthrough / errNilPacket / errShortPacket; partition head and tail constant true. Unbounded in input length and MTU.",
+          "No trusted contracts.", "§9 C16"),
+ "C20": ("proof", "Header.Clone and Packet.Clone: every bool/integer field equal (quantified over the struct's field list from go/types, so a forgotten new field fails), CSRC/extension list/extension values/payload equal in length and contents and freshly allocated (or nil exactly when the original is nil), proved with an inductive invariant over the extension loop for any number of extensions. Independence (mutating one never changes the other) is the consequence that everything mutable reachable from the clone is fresh; that last step is an argument over the freshness postconditions, not a separate obligation.",
+          "No trusted contracts. Deprecated Packet.Raw is outside the equality (no operation writes it).", "§9 C20"),
  "C17": ("proof", "Every Marshal/Unmarshal of the five fixed-size extension codecs carries a contract transcribing the specification's bit layout (bits/be16/be24/be64 over exact integers); "
           "all safety, frame and postcondition obligations are discharged for all inputs (loop-free code, so the proof is complete over the entire value and length domains); round trips are ghost lemma functions verified against the callee contracts only.",
           "No trusted contracts. Integers exact (Int + explicit wrap), bit operations by bit-slice normal form.", "§9 C17"),
